@@ -18,16 +18,16 @@ STREAMS = {
     "acase": ("upgrade.Level.Allows vs Upgrade.allows", ["allows_eq_spec", "allows_compose"]),
     "gcase": ("upgrade.Config.Get vs Upgrade.config_get", ["config_get_correct"]),
     "scase": ("suggest.suggestMavenVersion vs Suggest.suggest_maven_version",
-              ["suggest_within_level", "suggest_not_downgrade", "suggest_no_panic_on_D"]),
+              ["suggest_within_level", "suggest_not_downgrade", "suggest_no_panic"]),
     "qcase": ("MavenSuggester.Suggest / guidedremediation.Update vs Suggest.suggest_all", ["suggest_none_untouched"]),
     "rcase": ("relaxer.NpmRelaxer.Relax vs Relax.relax_npm",
-              ["relax_none_untouched", "relax_strictly_up", "relax_level_checked", "relax_range_within_level_on_D"]),
+              ["relax_none_untouched", "relax_strictly_up", "relax_level_checked", "relax_range_within_level",
+               "relax_level_from_resolved_refuted"]),
     "vcase": ("override.getVersionsGreater vs Override.get_versions_greater",
               ["override_strictly_up", "get_versions_greater_unlisted_refuted"]),
     "ocase": ("override.patchVulns vs Override.patch_vulns",
               ["override_strictly_up", "override_within_level", "override_within_level_of_original",
-               "override_none_untouched", "override_terminates", "override_nontermination_refuted",
-               "override_resolved_version_refuted"]),
+               "override_none_untouched", "override_terminates", "override_resolved_version_refuted"]),
     "ucase": ("PackageUpdates of guidedremediation.FixVulns / Update, judged on re-resolved graphs",
               ["override_strictly_up", "override_within_level", "relax_strictly_up", "suggest_within_level"]),
 }
@@ -41,11 +41,10 @@ META = {
                   "override_strictly_up / override_within_level / override_none_untouched / override_terminates for the model of "
                   "override.patchVulns over every universe, vulnerability set and configuration (resolver, matcher, IsAffected, "
                   "Difference as section variables); relax_* for the model of NpmRelaxer.Relax; suggest_* for the model of "
-                  "suggestMavenVersion. Refuted at full strength, with positive theorems on the stated domain: "
-                  "relax_caret_under_patch_refuted, suggest_downgrade_when_current_unknown_refuted, "
-                  "suggest_nil_on_no_candidate_refuted, override_nontermination_refuted (patchVulns loops forever when the "
-                  "resolver does not honour an override), override_resolved_version_refuted, "
-                  "get_versions_greater_unlisted_refuted. The models are tied to the code on every run by evaluating them "
+                  "suggestMavenVersion (suggest_not_downgrade and suggest_no_panic without a domain since fix 81d44206; "
+                  "relax_range_within_level for every valid level since fix e6d56740; override_terminates for every resolver "
+                  "since fix 37eca69c). Still refuted at full strength: override_resolved_version_refuted (a package need not "
+                  "resolve to the override asked for; combined patches can pull it down), get_versions_greater_unlisted_refuted, relax_level_from_resolved_refuted (npm resolves to the latest-tagged version, relax reasons from the highest match). The models are tied to the code on every run by evaluating them "
                   "with vm_compute on the oracle answers recorded while the real functions ran.",
     "level_note": "Trusted: Coq kernel + vm_compute; Go harness harness/cmd/remed; hooks guidedremediation/verif_export_c11.go "
                   "(+ override/relax/suggest verif_export_c11.go); deps.dev resolve/semver (Compare total preorder, Difference "
